@@ -265,7 +265,7 @@ type packetConn struct {
 	lastPacket *packet
 	lastBuf    *bytes.Reader
 
-	// stores time.Time as Unix as Read maybe called concurrently with SetReadDeadline
+	// stores time.Time as UnixNano (0: no deadline) as Read maybe called concurrently with SetReadDeadline
 	deadline      atomic.Int64
 	deadlineTimer *time.Timer
 	idleTimer     *time.Timer
@@ -273,7 +273,12 @@ type packetConn struct {
 
 // SetReadDeadline sets the deadline to wait for data from the underlying net.PacketConn.
 func (pc *packetConn) SetReadDeadline(t time.Time) error {
-	pc.deadline.Store(t.Unix())
+	if t.IsZero() {
+		// time.Time{}.UnixNano() is not 0 (it is undefined), so the zero time needs its own value
+		pc.deadline.Store(0)
+	} else {
+		pc.deadline.Store(t.UnixNano())
+	}
 	if pc.deadlineTimer != nil {
 		pc.deadlineTimer.Reset(time.Until(t))
 	} else {
@@ -284,6 +289,15 @@ func (pc *packetConn) SetReadDeadline(t time.Time) error {
 
 // TODO: idle timeout should be configurable per server
 const udpAssociationIdleTimeout = 30 * time.Second
+
+// readDeadline returns the deadline stored by SetReadDeadline, the zero time if there is none.
+func (pc *packetConn) readDeadline() time.Time {
+	ns := pc.deadline.Load()
+	if ns == 0 {
+		return time.Time{}
+	}
+	return time.Unix(0, ns)
+}
 
 func isDeadlineExceeded(t time.Time) bool {
 	return !t.IsZero() && t.Before(time.Now())
@@ -302,7 +316,7 @@ func (pc *packetConn) Read(b []byte) (n int, err error) {
 		return
 	}
 	// check deadline
-	if isDeadlineExceeded(time.Unix(pc.deadline.Load(), 0)) {
+	if isDeadlineExceeded(pc.readDeadline()) {
 		return 0, os.ErrDeadlineExceeded
 	}
 	// set or refresh idle timeout
@@ -332,7 +346,7 @@ func (pc *packetConn) Read(b []byte) (n int, err error) {
 			return
 		case <-pc.deadlineTimer.C:
 			// deadline may change during the wait, recheck
-			if isDeadlineExceeded(time.Unix(pc.deadline.Load(), 0)) {
+			if isDeadlineExceeded(pc.readDeadline()) {
 				return 0, os.ErrDeadlineExceeded
 			}
 			// next loop will run. Don't call Read as that will reset the idle timer.
